@@ -79,7 +79,7 @@ def abstract(ops, group, names):
     return out, codes
 
 
-def scenario(ctx, rng, kind, exe=None, fault=None):
+def scenario(ctx, rng, kind, exe=None, fault=None, delay=None):
     """fault = (syscall, errno, ordinal among the calls of that name on storage paths): the run meets one failing storage call"""
     with slevel.Sandbox("c12") as sb:
         if kind == "first":
@@ -131,10 +131,14 @@ def scenario(ctx, rng, kind, exe=None, fault=None):
                 ctx.count("fault.no-such-call")
                 return
             inject = ["%s:error=%s:when=%d" % (fault[0], fault[1], onst[fault[2]])]
+        if delay is not None:
+            inject = ["fsync:delay_exit=1500000:when=%d" % delay]
+            ctx.count("scenario.%s.slow-fsync-%d" % (kind, delay))
         rc, out = sb.vsb(["backup", "w"], now=H.now, prefix=trace.strace_cmd(tf, trace.STORAGE_CALLS, inject=inject), exe=exe)
         events = trace.parse(tf)
         main_pid = events[0]["pid"] if events else None
-        ops = trace.project([e for e in events if e["pid"] == main_pid], H.w.st)
+        # all threads of the run, in completion order (strace -f lists them as separate ids); only the main thread's exit status counts
+        ops = trace.project([e for e in events if e["pid"] == main_pid or e.get("name") != "exit_group"], H.w.st)
         after, _ = runs.listing(H.w.decode())
         groups_with = [g for g, fin, _, _ in after if name in fin]
         ctx.evaluations += 1
@@ -213,6 +217,12 @@ def run(ctx):
                 if len(ctx.violations) >= 3:
                     return
         # one failing storage call per run: each of the four fsyncs, the rename, and (thorough) a write
+        # a slow flush: each of the four fsyncs in turn takes 1.5 s to return (nothing fails) - code that flushes in the background
+        # must still have waited before it renames, removes or reports
+        for k in range(1, 5):
+            scenario(ctx, rng, "rotate", exe, delay=k)
+            if len(ctx.violations) >= 3:
+                return
         faults = [("fsync", "EIO", k) for k in range(4)] + [("rename", "EIO", 0)]
         if thorough:
             faults += [("write", "ENOSPC", 0), ("write", "EIO", 1), ("fdatasync", "EIO", 0), ("openat", "EACCES", 3)]
